@@ -33,9 +33,9 @@ def make_copy(dst):
             shutil.copy2(s, os.path.join(dst, item))
 
 
-def check(prop, copy, cache):
+def check(prop, copy, cache, tier=None):
     env = dict(os.environ, VERIF_CACHE=cache, VERIF_SCRATCH_OUT="1")
-    r = subprocess.run([os.path.join(VERIF, "check"), prop, "--repo", copy, "--tier", "quick"], env=env,
+    r = subprocess.run([os.path.join(VERIF, "check"), prop, "--repo", copy, "--tier", tier or os.environ.get("REPLAY_TIER", "quick")], env=env,
                        stdout=subprocess.PIPE, stderr=subprocess.STDOUT, text=True)
     return r.returncode, r.stdout
 
@@ -50,7 +50,14 @@ def job(kind, name, patch, props, slot):
         if r.returncode != 0:
             return name, "PATCH-DOES-NOT-APPLY", r.stdout.strip()[:200]
         if kind == "seeds":
-            rc, out = check(props[0], copy, cache)
+            tier = None
+            mp = os.path.join(os.path.dirname(patch), "meta.json")
+            if os.path.exists(mp):
+                try:
+                    tier = json.load(open(mp)).get("replay_tier")
+                except Exception:
+                    tier = None
+            rc, out = check(props[0], copy, cache, tier)
             viol = [l for l in out.splitlines() if "violation:" in l]
             if "build failed" in out:
                 return name, "DOES-NOT-COMPILE", out[-300:]
